@@ -45,17 +45,18 @@ import (
 // One generated file per group of functions, so that a function the translator can no longer read only affects
 // the properties that depend on its group.
 var gfGroups = map[string]struct{ file string }{
-	"gowindows": {"GoWindows.v"}, // storage proof windows, the reward block's per-prover decision, the next challenge
-	"gomint":    {"GoMint.v"},    // jklmint emission and split
-	"goprice":   {"GoPrice.v"},   // storage price functions
-	"gorns":     {"GoRns.v"},     // rns price list
-	"gogauge":   {"GoGauge.v"},   // payment gauges: what a reward block releases
-	"goreward":  {"GoReward.v"},  // the payout of a reward block
-	"gocollat":  {"GoCollat.v"},  // provider registration and shutdown (collateral)
-	"gornsown":  {"GoRnsOwn.v"},  // rns: the handlers that change a name's owner or move bid escrow
+	"gowindows":  {"GoWindows.v"},  // storage proof windows, the reward block's per-prover decision, the next challenge
+	"gomint":     {"GoMint.v"},     // jklmint emission and split
+	"goprice":    {"GoPrice.v"},    // storage price functions
+	"gorns":      {"GoRns.v"},      // rns price list
+	"gogauge":    {"GoGauge.v"},    // payment gauges: what a reward block releases
+	"goreward":   {"GoReward.v"},   // the payout of a reward block
+	"gocollat":   {"GoCollat.v"},   // provider registration and shutdown (collateral)
+	"gornsown":   {"GoRnsOwn.v"},   // rns: the handlers that change a name's owner or move bid escrow
 	"gofiletree": {"GoFiletree.v"}, // filetree: who may delete, hand over, post and change access lists
-	"gonotif":   {"GoNotif.v"},   // notifications: when a notification is stored
-	"goforms":   {"GoForms.v"},   // storage: what a signature on an attestation / report form does
+	"gonotif":    {"GoNotif.v"},    // notifications: when a notification is stored
+	"gooracle":   {"GoOracle.v"},   // oracle: who may create and update a feed
+	"goforms":    {"GoForms.v"},    // storage: what a signature on an attestation / report form does
 }
 
 func init() {
@@ -92,6 +93,9 @@ type gfFunc struct {
 	// RespField: the function returns a response record next to its error; this boolean field of the returned
 	// `&T{...}` literal becomes the first component of the translated result (false when the field is absent)
 	RespField string
+	// UnitExits: the unit (a loop body) may leave the whole function with `return <values>`; the generated unit then
+	// answers a boolean: true = the loop goes on to the next element, false = the function returned from inside the loop
+	UnitExits bool
 	// StmtEvents: statements (by prefix of their source text) that are not translated but recorded as an event,
 	// e.g. an inner loop whose body is a unit of its own
 	StmtEvents []gfEffect
@@ -137,7 +141,7 @@ var gfFuncs = []gfFunc{
 			`h := ctx.BlockHeight()`, `r := rand.NewRand()`, `r.Seed(gs + h)`},
 		Effects: []gfEffect{{Match: "proof.ChunkToProve", Tag: "set-challenge", Args: []string{"$rhs"}}}},
 	{Group: "gowindows", Pkg: "x/storage/types", Recv: "UnifiedFile", Name: "SetProven", Coq: "gen_SetProven",
-		Inputs: []gfInput{{"f.FileSize", "size", "Z"}, {"chunkSize", "chunk", "Z"}, {"r.Int63n(pieces)", "draw", "Z"}, {"ctx.BlockHeight()", "h", "Z"}},
+		Inputs:  []gfInput{{"f.FileSize", "size", "Z"}, {"chunkSize", "chunk", "Z"}, {"r.Int63n(pieces)", "draw", "Z"}, {"ctx.BlockHeight()", "h", "Z"}},
 		Effects: []gfEffect{{Match: "proof.LastProven", Tag: "set-last-proven", Args: []string{"$rhs"}}}},
 	{Group: "gowindows", Pkg: "x/storage/types", Recv: "UnifiedFile", Name: "Prove", Coq: "gen_Prove",
 		Inputs: []gfInput{{"f.FileSize", "size", "Z"}, {"chunkSize", "chunk", "Z"}, {"r.Int63n(pieces)", "draw", "Z"}, {"ctx.BlockHeight()", "h", "Z"},
@@ -153,7 +157,7 @@ var gfFuncs = []gfFunc{
 			{"file.VerifyProof(msg.HashList, proof.ChunkToProve, msg.Item)", "verified", "bool"}},
 		ReadStmts: []string{`ctx := sdk.UnwrapSDKContext(goCtx)`, `f, found := k.GetFile(ctx, msg.Merkle, msg.Owner, msg.Start)`, `file := &f`, `prover := msg.Creator`,
 			`var proof *types.FileProof`, `var err error`, `proof, err = file.GetProver(ctx, k, prover) => err=getprover_ok`},
-		Ignore: append([]string{`^s := fmt\.Sprintf\(`, `^e := fmt\.Errorf\(`, `^e := sdkerrors\.Wrapf\(`, `^ctx\.Logger\(\)\.Debug\(s\)$`, `^proof = &types\.FileProof\{`, `^ctx\.EventManager\(\)\.EmitEvent\(`}, gfLogging...),
+		Ignore:  append([]string{`^s := fmt\.Sprintf\(`, `^e := fmt\.Errorf\(`, `^e := sdkerrors\.Wrapf\(`, `^ctx\.Logger\(\)\.Debug\(s\)$`, `^proof = &types\.FileProof\{`, `^ctx\.EventManager\(\)\.EmitEvent\(`}, gfLogging...),
 		Effects: []gfEffect{{Match: "file.AddProver", Tag: "add-prover"}, {Match: "k.SetProof", Tag: "set-proof"}}},
 	// ---- x/storage/keeper/msg_server_init_provider.go: collateral locked and returned (C15)
 	{Group: "gocollat", Pkg: "x/storage/keeper", Recv: "msgServer", Name: "InitProvider", Coq: "gen_InitProvider",
@@ -198,7 +202,7 @@ var gfFuncs = []gfFunc{
 		Inputs: []gfInput{{"sender_ok", "sender_ok", "bool"}, {"bidFound", "bid_found", "bool"}, {"price_ok", "price_ok", "bool"}, {"ok_refund", "ok_refund", "bool"}},
 		ReadStmts: []string{`name = strings.ToLower(name)`, `bidder, err := sdk.AccAddressFromBech32(sender) => err=sender_ok`,
 			`bid, bidFound := k.GetBids(ctx, fmt.Sprintf("%s%s", sender, name))`, `price, err := sdk.ParseCoinsNormalized(bid.Price) => err=price_ok`},
-		Ignore: append([]string{`^ctx\.EventManager\(\)\.EmitEvent\(`}, gfLogging...),
+		Ignore:  append([]string{`^ctx\.EventManager\(\)\.EmitEvent\(`}, gfLogging...),
 		Effects: []gfEffect{{Match: "k.bankKeeper.SendCoinsFromModuleToAccount", Tag: "refund-bid-to-sender", Fallible: "ok_refund"}, {Match: "k.RemoveBids", Tag: "remove-bid"}}},
 	{Group: "gornsown", Pkg: "x/rns/keeper", Recv: "Keeper", Name: "AcceptOneBid", Coq: "gen_AcceptOneBid",
 		Inputs: []gfInput{{"sender_ok", "sender_ok", "bool"}, {"parse_ok", "parse_ok", "bool"}, {"isFound", "name_found", "bool"}, {"ctx.BlockHeight()", "h", "Z"},
@@ -215,68 +219,92 @@ var gfFuncs = []gfFunc{
 			{"whois.Expires", "expires", "Z"}, {"admin != sender.String()", "not_owner", "bool"}, {"whois.Locked", "locked", "Z"}},
 		ReadStmts: []string{`name = strings.ToLower(name)`, `sender, err := sdk.AccAddressFromBech32(creator) => err=sender_ok`, `name, tld, err := GetNameAndTLD(name) => err=parse_ok`,
 			`whois, isFound := k.GetNames(ctx, name, tld)`, `admin := whois.Value`},
-		Ignore: append([]string{`^whois\.Data = "\{\}"$`, `^ctx\.EventManager\(\)\.EmitEvent\(`}, gfLogging...),
+		Ignore:  append([]string{`^whois\.Data = "\{\}"$`, `^ctx\.EventManager\(\)\.EmitEvent\(`}, gfLogging...),
 		Effects: []gfEffect{{Match: "whois.Value", Tag: "owner-becomes-receiver"}, {Match: "k.SetNames", Tag: "set-name"}}},
+	// ---- x/rns/keeper: a name's data and records change only by its owner, while the name is live (C08)
+	{Group: "gornsown", Pkg: "x/rns/keeper", Recv: "Keeper", Name: "UpdateName", Coq: "gen_UpdateName",
+		Inputs: []gfInput{{"parse_ok", "parse_ok", "bool"}, {"isFound", "name_found", "bool"}, {"sender_ok", "sender_ok", "bool"}, {"whois.Value != owner.String()", "not_owner", "bool"},
+			{"ctx.BlockHeight()", "h", "Z"}, {"whois.Expires", "expires", "Z"}},
+		ReadStmts: []string{`nm = strings.ToLower(nm)`, `name, tld, err := GetNameAndTLD(nm) => err=parse_ok`, `whois, isFound := k.GetNames(ctx, name, tld)`,
+			`owner, err := sdk.AccAddressFromBech32(sender) => err=sender_ok`},
+		Ignore:  append([]string{`^ctx\.EventManager\(\)\.EmitEvent\(`}, gfLogging...),
+		Effects: []gfEffect{{Match: "whois.Data", Tag: "data-becomes-the-message's"}, {Match: "k.SetNames", Tag: "set-name"}}},
+	{Group: "gornsown", Pkg: "x/rns/keeper", Recv: "msgServer", Name: "AddRecord", Coq: "gen_AddRecord",
+		Inputs: []gfInput{{"parse_ok", "parse_ok", "bool"}, {"isFound", "name_found", "bool"}, {"ctx.BlockHeight()", "h", "Z"}, {"whois.Expires", "expires", "Z"},
+			{"msg.Creator != whois.Value", "not_owner", "bool"}, {`strings.Contains(msg.Value, ".")`, "value_has_dot", "bool"}, {"label_taken", "label_taken", "bool"}},
+		ReadStmts: []string{`ctx := sdk.UnwrapSDKContext(goCtx)`, `mname := strings.ToLower(msg.Name)`, `name, tld, err := GetNameAndTLD(mname) => err=parse_ok`,
+			`whois, isFound := k.GetNames(ctx, name, tld)`,
+			`for _, sd := range whois.Subdomains { if sd.Name == msg.Record { return nil, sdkerrors.Wrap(sdkerrors.ErrInvalidType, "Subdomain already exists") } } => !fails_when=label_taken`},
+		Ignore:  append([]string{`^if whois\.Subdomains == nil \{`, `^record := types\.Names\{`, `^ctx\.EventManager\(\)\.EmitEvent\(`}, gfLogging...),
+		Effects: []gfEffect{{Match: "whois.Subdomains", Tag: "append-record"}, {Match: "k.SetNames", Tag: "set-name"}}},
+	{Group: "gornsown", Pkg: "x/rns/keeper", Recv: "msgServer", Name: "DelRecord", Coq: "gen_DelRecord",
+		Inputs: []gfInput{{"parse_ok", "parse_ok", "bool"}, {"hasSub", "has_sub", "bool"}, {"found", "name_found", "bool"}, {"ctx.BlockHeight()", "h", "Z"}, {"val.Expires", "expires", "Z"},
+			{"msg.Creator != val.Value", "not_owner", "bool"}, {"record_present", "record_present", "bool"}},
+		ReadStmts: []string{`ctx := sdk.UnwrapSDKContext(goCtx)`, `mname := strings.ToLower(msg.Name)`, `n, tld, err := GetNameAndTLD(mname) => err=parse_ok`,
+			`sub, n, hasSub := GetSubdomain(n)`, `val, found := k.GetNames(ctx, n, tld)`, `dms := []*types.Names{}`,
+			`for _, domain := range val.Subdomains { if domain.Name != sub { dms = append(dms, domain) continue } removed = true } => removed=record_present`},
+		Ignore:  append([]string{`^ctx\.EventManager\(\)\.EmitEvent\(`}, gfLogging...),
+		Effects: []gfEffect{{Match: "val.Subdomains", Tag: "records-without-the-label"}, {Match: "k.SetNames", Tag: "set-name"}}},
 	// ---- x/filetree/keeper: the authorisation skeleton of every handler (C10).  Strings are opaque: the events say what is written
 	{Group: "gofiletree", Pkg: "x/filetree/keeper", Recv: "msgServer", Name: "DeleteFile", Coq: "gen_DeleteFile",
-		Inputs: []gfInput{{"found", "found", "bool"}, {"isOwner", "is_owner", "bool"}},
+		Inputs:    []gfInput{{"found", "found", "bool"}, {"isOwner", "is_owner", "bool"}},
 		ReadStmts: []string{`ctx := sdk.UnwrapSDKContext(goCtx)`, `ownerAddress := MakeOwnerAddress(msg.HashPath, msg.Account)`, `file, found := k.GetFiles(ctx, msg.HashPath, ownerAddress)`, `isOwner := IsOwner(file, msg.Creator)`},
-		Ignore: append([]string{`^ctx\.EventManager\(\)\.EmitEvent\(`}, gfLogging...),
-		Effects: []gfEffect{{Match: "k.RemoveFiles", Tag: "remove-entry"}}},
+		Ignore:    append([]string{`^ctx\.EventManager\(\)\.EmitEvent\(`}, gfLogging...),
+		Effects:   []gfEffect{{Match: "k.RemoveFiles", Tag: "remove-entry"}}},
 	{Group: "gofiletree", Pkg: "x/filetree/keeper", Recv: "msgServer", Name: "ChangeOwner", Coq: "gen_ChangeOwner",
 		Inputs: []gfInput{{"found", "found", "bool"}, {"isOwner", "is_owner", "bool"}, {"fnd", "target_exists", "bool"}},
 		ReadStmts: []string{`ctx := sdk.UnwrapSDKContext(goCtx)`, `currentOwner := MakeOwnerAddress(msg.Address, msg.FileOwner)`, `file, found := k.GetFiles(ctx, msg.Address, currentOwner)`,
 			`isOwner := IsOwner(file, msg.Creator)`, `newOwner := MakeOwnerAddress(msg.Address, msg.NewOwner)`, `_, fnd := k.GetFiles(ctx, msg.Address, newOwner)`},
-		Ignore: append([]string{`^ctx\.EventManager\(\)\.EmitEvent\(`}, gfLogging...),
+		Ignore:  append([]string{`^ctx\.EventManager\(\)\.EmitEvent\(`}, gfLogging...),
 		Effects: []gfEffect{{Match: "file.Owner", Tag: "owner-becomes-new-owner"}, {Match: "k.SetFiles", Tag: "set-entry"}, {Match: "k.RemoveFiles", Tag: "remove-old-entry"}}},
 	{Group: "gofiletree", Pkg: "x/filetree/keeper", Recv: "msgServer", Name: "PostFile", Coq: "gen_FtPostFile",
 		Inputs: []gfInput{{"found", "parent_found", "bool"}, {"hasEdit", "has_edit", "bool"}, {"access_ok", "access_ok", "bool"}},
 		ReadStmts: []string{`ctx := sdk.UnwrapSDKContext(goCtx)`, `parentOwnerString := MakeOwnerAddress(msg.HashParent, msg.Account)`, `parentFile, found := k.GetFiles(ctx, msg.HashParent, parentOwnerString)`,
 			`hasEdit, err := HasEditAccess(parentFile, msg.Creator) => err=access_ok`, `fullMerklePath := types.AddToMerkle(msg.HashParent, msg.HashChild)`, `owner := MakeOwnerAddress(fullMerklePath, msg.Account)`},
-		Ignore: append([]string{`^file := types\.Files\{`, `^ctx\.EventManager\(\)\.EmitEvent\(`}, gfLogging...),
+		Ignore:  append([]string{`^file := types\.Files\{`, `^ctx\.EventManager\(\)\.EmitEvent\(`}, gfLogging...),
 		Effects: []gfEffect{{Match: "k.SetFiles", Tag: "set-entry-under-parent"}}},
 	{Group: "gofiletree", Pkg: "x/filetree/keeper", Recv: "msgServer", Name: "AddViewers", Coq: "gen_AddViewers",
-		Inputs: []gfInput{{"found", "found", "bool"}, {"isOwner", "is_owner", "bool"}, {"parse_ok", "parse_ok", "bool"}, {"marshal_ok", "marshal_ok", "bool"}},
-		ReadStmts: []string{`ctx := sdk.UnwrapSDKContext(goCtx)`, `file, found := k.GetFiles(ctx, msg.Address, msg.FileOwner)`, `isOwner := IsOwner(file, msg.Creator)`, `pvacc := file.ViewingAccess`, `jvacc := make(map[string]string)`, `err := json.Unmarshal([]byte(pvacc), &jvacc) => err=parse_ok`, `ids := strings.Split(msg.ViewerIds, ",")`, `keys := strings.Split(msg.ViewerKeys, ",")`, `vaccbytes, err := json.Marshal(jvacc) => err=marshal_ok`, `newviewers := string(vaccbytes)`},
-		Ignore: append([]string{`^ctx\.EventManager\(\)\.EmitEvent\(`}, gfLogging...),
+		Inputs:     []gfInput{{"found", "found", "bool"}, {"isOwner", "is_owner", "bool"}, {"parse_ok", "parse_ok", "bool"}, {"marshal_ok", "marshal_ok", "bool"}},
+		ReadStmts:  []string{`ctx := sdk.UnwrapSDKContext(goCtx)`, `file, found := k.GetFiles(ctx, msg.Address, msg.FileOwner)`, `isOwner := IsOwner(file, msg.Creator)`, `pvacc := file.ViewingAccess`, `jvacc := make(map[string]string)`, `err := json.Unmarshal([]byte(pvacc), &jvacc) => err=parse_ok`, `ids := strings.Split(msg.ViewerIds, ",")`, `keys := strings.Split(msg.ViewerKeys, ",")`, `vaccbytes, err := json.Marshal(jvacc) => err=marshal_ok`, `newviewers := string(vaccbytes)`},
+		Ignore:     append([]string{`^ctx\.EventManager\(\)\.EmitEvent\(`}, gfLogging...),
 		StmtEvents: []gfEffect{{Match: "for i, v := range ids", Tag: "merge-ids-into-list"}},
-		Effects: []gfEffect{{Match: "file.ViewingAccess", Tag: "set-list"}, {Match: "k.SetFiles", Tag: "set-file"}}},
+		Effects:    []gfEffect{{Match: "file.ViewingAccess", Tag: "set-list"}, {Match: "k.SetFiles", Tag: "set-file"}}},
 	{Group: "gofiletree", Pkg: "x/filetree/keeper", Recv: "msgServer", Name: "AddEditors", Coq: "gen_AddEditors",
-		Inputs: []gfInput{{"found", "found", "bool"}, {"isOwner", "is_owner", "bool"}, {"parse_ok", "parse_ok", "bool"}, {"marshal_ok", "marshal_ok", "bool"}},
-		ReadStmts: []string{`ctx := sdk.UnwrapSDKContext(goCtx)`, `file, found := k.GetFiles(ctx, msg.Address, msg.FileOwner)`, `isOwner := IsOwner(file, msg.Creator)`, `peacc := file.EditAccess`, `jeacc := make(map[string]string)`, `err := json.Unmarshal([]byte(peacc), &jeacc) => err=parse_ok`, `ids := strings.Split(msg.EditorIds, ",")`, `keys := strings.Split(msg.EditorKeys, ",")`, `eaccbytes, err := json.Marshal(jeacc) => err=marshal_ok`, `newEditors := string(eaccbytes)`},
-		Ignore: append([]string{`^ctx\.EventManager\(\)\.EmitEvent\(`}, gfLogging...),
+		Inputs:     []gfInput{{"found", "found", "bool"}, {"isOwner", "is_owner", "bool"}, {"parse_ok", "parse_ok", "bool"}, {"marshal_ok", "marshal_ok", "bool"}},
+		ReadStmts:  []string{`ctx := sdk.UnwrapSDKContext(goCtx)`, `file, found := k.GetFiles(ctx, msg.Address, msg.FileOwner)`, `isOwner := IsOwner(file, msg.Creator)`, `peacc := file.EditAccess`, `jeacc := make(map[string]string)`, `err := json.Unmarshal([]byte(peacc), &jeacc) => err=parse_ok`, `ids := strings.Split(msg.EditorIds, ",")`, `keys := strings.Split(msg.EditorKeys, ",")`, `eaccbytes, err := json.Marshal(jeacc) => err=marshal_ok`, `newEditors := string(eaccbytes)`},
+		Ignore:     append([]string{`^ctx\.EventManager\(\)\.EmitEvent\(`}, gfLogging...),
 		StmtEvents: []gfEffect{{Match: "for i, v := range ids", Tag: "merge-ids-into-list"}},
-		Effects: []gfEffect{{Match: "file.EditAccess", Tag: "set-list"}, {Match: "k.SetFiles", Tag: "set-file"}}},
+		Effects:    []gfEffect{{Match: "file.EditAccess", Tag: "set-list"}, {Match: "k.SetFiles", Tag: "set-file"}}},
 	{Group: "gofiletree", Pkg: "x/filetree/keeper", Recv: "msgServer", Name: "RemoveViewers", Coq: "gen_RemoveViewers",
-		Inputs: []gfInput{{"found", "found", "bool"}, {"isOwner", "is_owner", "bool"}, {"parse_ok", "parse_ok", "bool"}, {"marshal_ok", "marshal_ok", "bool"}},
-		ReadStmts: []string{`ctx := sdk.UnwrapSDKContext(goCtx)`, `file, found := k.GetFiles(ctx, msg.Address, msg.FileOwner)`, `isOwner := IsOwner(file, msg.Creator)`, `pvacc := file.ViewingAccess`, `jvacc := make(map[string]string)`, `err := json.Unmarshal([]byte(pvacc), &jvacc) => err=parse_ok`, `ids := strings.Split(msg.ViewerIds, ",")`, `vaccbytes, err := json.Marshal(jvacc) => err=marshal_ok`, `newviewers := string(vaccbytes)`},
-		Ignore: append([]string{`^ctx\.EventManager\(\)\.EmitEvent\(`}, gfLogging...),
+		Inputs:     []gfInput{{"found", "found", "bool"}, {"isOwner", "is_owner", "bool"}, {"parse_ok", "parse_ok", "bool"}, {"marshal_ok", "marshal_ok", "bool"}},
+		ReadStmts:  []string{`ctx := sdk.UnwrapSDKContext(goCtx)`, `file, found := k.GetFiles(ctx, msg.Address, msg.FileOwner)`, `isOwner := IsOwner(file, msg.Creator)`, `pvacc := file.ViewingAccess`, `jvacc := make(map[string]string)`, `err := json.Unmarshal([]byte(pvacc), &jvacc) => err=parse_ok`, `ids := strings.Split(msg.ViewerIds, ",")`, `vaccbytes, err := json.Marshal(jvacc) => err=marshal_ok`, `newviewers := string(vaccbytes)`},
+		Ignore:     append([]string{`^ctx\.EventManager\(\)\.EmitEvent\(`}, gfLogging...),
 		StmtEvents: []gfEffect{{Match: "for _, v := range ids", Tag: "delete-ids-from-list"}},
-		Effects: []gfEffect{{Match: "file.ViewingAccess", Tag: "set-list"}, {Match: "k.SetFiles", Tag: "set-file"}}},
+		Effects:    []gfEffect{{Match: "file.ViewingAccess", Tag: "set-list"}, {Match: "k.SetFiles", Tag: "set-file"}}},
 	{Group: "gofiletree", Pkg: "x/filetree/keeper", Recv: "msgServer", Name: "RemoveEditors", Coq: "gen_RemoveEditors",
-		Inputs: []gfInput{{"found", "found", "bool"}, {"isOwner", "is_owner", "bool"}, {"parse_ok", "parse_ok", "bool"}, {"marshal_ok", "marshal_ok", "bool"}},
-		ReadStmts: []string{`ctx := sdk.UnwrapSDKContext(goCtx)`, `file, found := k.GetFiles(ctx, msg.Address, msg.FileOwner)`, `isOwner := IsOwner(file, msg.Creator)`, `peacc := file.EditAccess`, `jeacc := make(map[string]string)`, `err := json.Unmarshal([]byte(peacc), &jeacc) => err=parse_ok`, `ids := strings.Split(msg.EditorIds, ",")`, `eaccbytes, err := json.Marshal(jeacc) => err=marshal_ok`, `newEditors := string(eaccbytes)`},
-		Ignore: append([]string{`^ctx\.EventManager\(\)\.EmitEvent\(`}, gfLogging...),
+		Inputs:     []gfInput{{"found", "found", "bool"}, {"isOwner", "is_owner", "bool"}, {"parse_ok", "parse_ok", "bool"}, {"marshal_ok", "marshal_ok", "bool"}},
+		ReadStmts:  []string{`ctx := sdk.UnwrapSDKContext(goCtx)`, `file, found := k.GetFiles(ctx, msg.Address, msg.FileOwner)`, `isOwner := IsOwner(file, msg.Creator)`, `peacc := file.EditAccess`, `jeacc := make(map[string]string)`, `err := json.Unmarshal([]byte(peacc), &jeacc) => err=parse_ok`, `ids := strings.Split(msg.EditorIds, ",")`, `eaccbytes, err := json.Marshal(jeacc) => err=marshal_ok`, `newEditors := string(eaccbytes)`},
+		Ignore:     append([]string{`^ctx\.EventManager\(\)\.EmitEvent\(`}, gfLogging...),
 		StmtEvents: []gfEffect{{Match: "for _, v := range ids", Tag: "delete-ids-from-list"}},
-		Effects: []gfEffect{{Match: "file.EditAccess", Tag: "set-list"}, {Match: "k.SetFiles", Tag: "set-file"}}},
+		Effects:    []gfEffect{{Match: "file.EditAccess", Tag: "set-list"}, {Match: "k.SetFiles", Tag: "set-file"}}},
 	{Group: "gofiletree", Pkg: "x/filetree/keeper", Recv: "msgServer", Name: "ResetViewers", Coq: "gen_ResetViewers",
-		Inputs: []gfInput{{"found", "found", "bool"}, {"isOwner", "is_owner", "bool"}, {"parse_ok", "parse_ok", "bool"}, {"marshal_ok", "marshal_ok", "bool"}},
-		ReadStmts: []string{`ctx := sdk.UnwrapSDKContext(goCtx)`, `file, found := k.GetFiles(ctx, msg.Address, msg.FileOwner)`, `isOwner := IsOwner(file, msg.Creator)`, `pvacc := file.ViewingAccess`, `jvacc := make(map[string]string)`, `err := json.Unmarshal([]byte(pvacc), &jvacc) => err=parse_ok`, `ownerViewerAddress := MakeViewerAddress(file.TrackingNumber, msg.Creator)`, `ownerKey := jvacc[ownerViewerAddress]`, `resetViewers := make(map[string]string)`, `vaccbytes, err := json.Marshal(resetViewers) => err=marshal_ok`, `newViewers := string(vaccbytes)`},
-		Ignore: append([]string{`^ctx\.EventManager\(\)\.EmitEvent\(`}, gfLogging...),
+		Inputs:     []gfInput{{"found", "found", "bool"}, {"isOwner", "is_owner", "bool"}, {"parse_ok", "parse_ok", "bool"}, {"marshal_ok", "marshal_ok", "bool"}},
+		ReadStmts:  []string{`ctx := sdk.UnwrapSDKContext(goCtx)`, `file, found := k.GetFiles(ctx, msg.Address, msg.FileOwner)`, `isOwner := IsOwner(file, msg.Creator)`, `pvacc := file.ViewingAccess`, `jvacc := make(map[string]string)`, `err := json.Unmarshal([]byte(pvacc), &jvacc) => err=parse_ok`, `ownerViewerAddress := MakeViewerAddress(file.TrackingNumber, msg.Creator)`, `ownerKey := jvacc[ownerViewerAddress]`, `resetViewers := make(map[string]string)`, `vaccbytes, err := json.Marshal(resetViewers) => err=marshal_ok`, `newViewers := string(vaccbytes)`},
+		Ignore:     append([]string{`^ctx\.EventManager\(\)\.EmitEvent\(`}, gfLogging...),
 		StmtEvents: []gfEffect{{Match: "resetViewers[ownerViewerAddress] = ownerKey", Tag: "list-becomes-the-signers-own-entry"}},
-		Effects: []gfEffect{{Match: "file.ViewingAccess", Tag: "set-list"}, {Match: "k.SetFiles", Tag: "set-file"}}},
+		Effects:    []gfEffect{{Match: "file.ViewingAccess", Tag: "set-list"}, {Match: "k.SetFiles", Tag: "set-file"}}},
 	{Group: "gofiletree", Pkg: "x/filetree/keeper", Recv: "msgServer", Name: "ResetEditors", Coq: "gen_ResetEditors",
-		Inputs: []gfInput{{"found", "found", "bool"}, {"isOwner", "is_owner", "bool"}, {"parse_ok", "parse_ok", "bool"}, {"marshal_ok", "marshal_ok", "bool"}},
-		ReadStmts: []string{`ctx := sdk.UnwrapSDKContext(goCtx)`, `file, found := k.GetFiles(ctx, msg.Address, msg.FileOwner)`, `isOwner := IsOwner(file, msg.Creator)`, `peacc := file.EditAccess`, `jeacc := make(map[string]string)`, `err := json.Unmarshal([]byte(peacc), &jeacc) => err=parse_ok`, `ownerEditorAddress := MakeEditorAddress(file.TrackingNumber, msg.Creator)`, `ownerKey := jeacc[ownerEditorAddress]`, `resetEditors := make(map[string]string)`, `eaccbytes, err := json.Marshal(resetEditors) => err=marshal_ok`, `newEditors := string(eaccbytes)`},
-		Ignore: append([]string{`^ctx\.EventManager\(\)\.EmitEvent\(`}, gfLogging...),
+		Inputs:     []gfInput{{"found", "found", "bool"}, {"isOwner", "is_owner", "bool"}, {"parse_ok", "parse_ok", "bool"}, {"marshal_ok", "marshal_ok", "bool"}},
+		ReadStmts:  []string{`ctx := sdk.UnwrapSDKContext(goCtx)`, `file, found := k.GetFiles(ctx, msg.Address, msg.FileOwner)`, `isOwner := IsOwner(file, msg.Creator)`, `peacc := file.EditAccess`, `jeacc := make(map[string]string)`, `err := json.Unmarshal([]byte(peacc), &jeacc) => err=parse_ok`, `ownerEditorAddress := MakeEditorAddress(file.TrackingNumber, msg.Creator)`, `ownerKey := jeacc[ownerEditorAddress]`, `resetEditors := make(map[string]string)`, `eaccbytes, err := json.Marshal(resetEditors) => err=marshal_ok`, `newEditors := string(eaccbytes)`},
+		Ignore:     append([]string{`^ctx\.EventManager\(\)\.EmitEvent\(`}, gfLogging...),
 		StmtEvents: []gfEffect{{Match: "resetEditors[ownerEditorAddress] = ownerKey", Tag: "list-becomes-the-signers-own-entry"}},
-		Effects: []gfEffect{{Match: "file.EditAccess", Tag: "set-list"}, {Match: "k.SetFiles", Tag: "set-file"}}},
+		Effects:    []gfEffect{{Match: "file.EditAccess", Tag: "set-list"}, {Match: "k.SetFiles", Tag: "set-file"}}},
 	// ---- x/storage/keeper/files.go: removing a file hands its footprint back to the plan that paid for it (C07)
 	{Group: "goprice", Pkg: "x/storage/keeper", Recv: "Keeper", Name: "RemoveFile", Coq: "gen_RemoveFile",
 		Inputs: []gfInput{{"file_found", "file_found", "bool"}, {"file.Expires", "expires", "Z"}, {"file.FileSize", "size", "Z"}, {"file.MaxProofs", "maxp", "Z"},
 			{"plan_found", "plan_found", "bool"}, {"used", "used", "Z"}, {"start", "start", "Z"}},
-		FieldVars: []gfInput{{"payInfo.SpaceUsed", "used", "Z"}},
-		ReadStmts: []string{`file, found := k.GetFile(ctx, merkle, owner, start) => found=file_found`, `payInfo, found := k.GetStoragePaymentInfo(ctx, file.Owner) => found=plan_found`},
+		FieldVars:  []gfInput{{"payInfo.SpaceUsed", "used", "Z"}},
+		ReadStmts:  []string{`file, found := k.GetFile(ctx, merkle, owner, start) => found=file_found`, `payInfo, found := k.GetStoragePaymentInfo(ctx, file.Owner) => found=plan_found`},
 		StmtEvents: []gfEffect{{Match: "for _, proof := range file.Proofs", Tag: "remove-proof-records"}},
 		Effects: []gfEffect{{Match: "k.SetStoragePaymentInfo", Tag: "set-plan-used", Args: []string{"payInfo.SpaceUsed"}},
 			{Match: "k.removeFilePrimary", Tag: "remove-file-primary"}, {Match: "k.removeFileSecondary", Tag: "remove-file-secondary"}}},
@@ -286,14 +314,14 @@ var gfFuncs = []gfFunc{
 			{"ctx.BlockHeight()", "h", "Z"}, {"name.Locked", "locked", "Z"}, {"name.Expires", "expires", "Z"}},
 		ReadStmts: []string{`ctx := sdk.UnwrapSDKContext(goCtx)`, `mname := strings.ToLower(msg.Name)`, `_, found := k.GetForsale(ctx, mname)`,
 			`n, tld, err := GetNameAndTLD(mname) => err=parse_ok`, `name, nfound := k.GetNames(ctx, n, tld)`},
-		Ignore: append([]string{`^newsale := types\.Forsale\{`, `^ctx\.EventManager\(\)\.EmitEvent\(`}, gfLogging...),
+		Ignore:  append([]string{`^newsale := types\.Forsale\{`, `^ctx\.EventManager\(\)\.EmitEvent\(`}, gfLogging...),
 		Effects: []gfEffect{{Match: "k.SetForsale", Tag: "set-listing"}}},
 	{Group: "gornsown", Pkg: "x/rns/keeper", Recv: "msgServer", Name: "Delist", Coq: "gen_Delist",
 		Inputs: []gfInput{{"found", "listed", "bool"}, {"parse_ok", "parse_ok", "bool"}, {"nfound", "name_found", "bool"}, {"sale.Owner != msg.Creator", "not_lister", "bool"},
 			{"name.Value != sale.Owner", "stale_listing", "bool"}},
 		ReadStmts: []string{`ctx := sdk.UnwrapSDKContext(goCtx)`, `mname := strings.ToLower(msg.Name)`, `sale, found := k.GetForsale(ctx, mname)`,
 			`n, tld, err := GetNameAndTLD(mname) => err=parse_ok`, `name, nfound := k.GetNames(ctx, n, tld)`},
-		Ignore: append([]string{`^ctx\.EventManager\(\)\.EmitEvent\(`}, gfLogging...),
+		Ignore:  append([]string{`^ctx\.EventManager\(\)\.EmitEvent\(`}, gfLogging...),
 		Effects: []gfEffect{{Match: "k.RemoveForsale", Tag: "remove-listing"}}},
 	// ---- x/notifications/keeper: when a notification is stored (C18)
 	{Group: "gonotif", Pkg: "x/notifications/keeper", Recv: "msgServer", Name: "CreateNotification", Coq: "gen_CreateNotification",
@@ -302,8 +330,32 @@ var gfFuncs = []gfFunc{
 		ReadStmts: []string{`ctx := sdk.UnwrapSDKContext(goCtx)`, `sender := msg.Creator`,
 			`if senderAddress, err := sdk.AccAddressFromBech32(msg.Creator); err == nil { sender = senderAddress.String() }`, `owner := msg.To`,
 			`address, err := k.rns.Resolve(ctx, owner) => err=resolve_ok`, `_, found := k.GetNotification(ctx, noti.To, noti.From, noti.Time)`},
-		Ignore: append([]string{`^noti := types\.Notification\{`, `^ctx\.EventManager\(\)\.EmitEvent\(`}, gfLogging...),
+		Ignore:  append([]string{`^noti := types\.Notification\{`, `^ctx\.EventManager\(\)\.EmitEvent\(`}, gfLogging...),
 		Effects: []gfEffect{{Match: "k.SetNotification", Tag: "store-notification"}}},
+	// ---- x/notifications/keeper: deleting from one's own inbox, blocking senders (C18, C11)
+	{Group: "gonotif", Pkg: "x/notifications/keeper", Recv: "msgServer", Name: "DeleteNotification", Coq: "gen_DeleteNotification",
+		ReadStmts: []string{`ctx := sdk.UnwrapSDKContext(goCtx)`, `owner := msg.Creator`,
+			`if ownerAddress, err := sdk.AccAddressFromBech32(msg.Creator); err == nil { owner = ownerAddress.String() }`},
+		Ignore:  append([]string{`^ctx\.EventManager\(\)\.EmitEvent\(`}, gfLogging...),
+		Effects: []gfEffect{{Match: "k.RemoveNotification", Tag: "remove-from-own-inbox"}}},
+	{Group: "gonotif", Pkg: "x/notifications/keeper", Recv: "msgServer", Name: "BlockSenders", Coq: "gen_BlockOne",
+		Path: []string{"range:msg.ToBlock"}, UnitExits: true,
+		Inputs:    []gfInput{{"resolve_ok", "resolve_ok", "bool"}},
+		ReadStmts: []string{`address, err := k.rns.Resolve(ctx, toBlock) => err=resolve_ok`},
+		Ignore:    []string{`^b := types\.Block\{`},
+		Effects:   []gfEffect{{Match: "k.SetBlock", Tag: "block-in-own-list"}}},
+	// ---- x/oracle/keeper: a feed is written by CreateFeed under a free name, afterwards only by its owner (C11)
+	{Group: "gooracle", Pkg: "x/oracle/keeper", Recv: "msgServer", Name: "CreateFeed", Coq: "gen_CreateFeed",
+		Inputs: []gfInput{{"found", "name_taken", "bool"}, {"creator_ok", "creator_ok", "bool"}, {"ok_charge", "ok_charge", "bool"}, {"deposit_ok", "deposit_ok", "bool"}, {"ok_forward", "ok_forward", "bool"}},
+		ReadStmts: []string{`ctx := sdk.UnwrapSDKContext(goCtx)`, `_, found := k.GetFeed(ctx, msg.Name)`, `add, err := sdk.AccAddressFromBech32(msg.Creator) => err=creator_ok`,
+			`c := sdk.NewInt64Coin("ujkl", 100*1000000)`, `cs := sdk.NewCoins(c)`, `depo, err := sdk.AccAddressFromBech32(k.GetParams(ctx).Deposit) => err=deposit_ok`},
+		Ignore: []string{`^feed := types\.Feed\{`},
+		Effects: []gfEffect{{Match: "k.bankKeeper.SendCoinsFromAccountToModule", Tag: "charge-deposit", Fallible: "ok_charge"},
+			{Match: "k.bankKeeper.SendCoinsFromModuleToAccount", Tag: "forward-deposit", Fallible: "ok_forward"}, {Match: "k.SetFeed", Tag: "store-feed"}}},
+	{Group: "gooracle", Pkg: "x/oracle/keeper", Recv: "msgServer", Name: "UpdateFeed", Coq: "gen_UpdateFeed",
+		Inputs:    []gfInput{{"found", "found", "bool"}, {"feed.Owner != msg.Creator", "not_owner", "bool"}},
+		ReadStmts: []string{`ctx := sdk.UnwrapSDKContext(goCtx)`, `feed, found := k.GetFeed(ctx, msg.Name)`},
+		Effects:   []gfEffect{{Match: "feed.Data", Tag: "set-data"}, {Match: "feed.LastUpdate", Tag: "set-time"}, {Match: "k.SetFeed", Tag: "store-feed"}}},
 	// ---- x/storage/keeper: signatures on attestation and report forms (C14, C01).  The loop that marks the signer and
 	// counts the completed entries is a read: whether the signer is named on the form, and the count after marking
 	{Group: "goforms", Pkg: "x/storage/keeper", Recv: "Keeper", Name: "Attest", Coq: "gen_Attest",
@@ -464,23 +516,23 @@ var gfFuncs = []gfFunc{
 // ---------------------------------------------------------------------------------------------
 
 type gfTr struct {
-	c        *Ctx
-	pkg      *packages.Package
-	cfg      *gfFunc
-	decl     *ast.FuncDecl
-	byObj    map[*types.Func]*gfFunc
-	names    map[types.Object]string
-	used     map[string]bool
-	tmp      int
-	events   bool
-	resTy    []string // result types of the Go function ("Z", "bool", "Dec", "err")
-	reads    map[string]gfInput
-	size     int
-	unitKind string // "" (the whole function), "funclit" or "range"
-	resKeep  []bool // which results of the Go function are part of the translated result
-	named    []*types.Var // named results (a bare return returns their current values)
+	c         *Ctx
+	pkg       *packages.Package
+	cfg       *gfFunc
+	decl      *ast.FuncDecl
+	byObj     map[*types.Func]*gfFunc
+	names     map[types.Object]string
+	used      map[string]bool
+	tmp       int
+	events    bool
+	resTy     []string // result types of the Go function ("Z", "bool", "Dec", "err")
+	reads     map[string]gfInput
+	size      int
+	unitKind  string            // "" (the whole function), "funclit" or "range"
+	resKeep   []bool            // which results of the Go function are part of the translated result
+	named     []*types.Var      // named results (a bare return returns their current values)
 	fieldVars map[string]string // source text of a field treated as a variable -> its Gallina name
-	ends     []func() string // what falling off the end of the current statement list means (join points of ifs)
+	ends      []func() string   // what falling off the end of the current statement list means (join points of ifs)
 }
 
 func gfNorm(s string) string { return strings.Join(strings.Fields(s), " ") }
@@ -1149,6 +1201,9 @@ func (t *gfTr) seq(stmts []ast.Stmt) (string, error) {
 		return t.ends[len(t.ends)-1](), nil
 	}
 	if len(stmts) == 0 {
+		if t.unitKind != "" && t.cfg.UnitExits {
+			return t.ret([]string{"true"}), nil
+		}
 		if len(t.resTy) != 0 {
 			return "", fmt.Errorf("%s: control reaches the end of a function that returns a value", t.cfg.Name)
 		}
@@ -1162,7 +1217,7 @@ func (t *gfTr) seq(stmts []ast.Stmt) (string, error) {
 		if gfNorm(parts[0]) != text {
 			continue
 		}
-		pre := ""
+		pre, post := "", ""
 		if len(parts) == 2 {
 			as, isAssign := s.(*ast.AssignStmt)
 			for _, kv := range strings.Split(parts[1], ",") {
@@ -1170,6 +1225,15 @@ func (t *gfTr) seq(stmts []ast.Stmt) (string, error) {
 				in, ok := t.reads[f[1]]
 				if !ok {
 					return "", t.errf(s, "read statement assigns %s from an unknown input %s", f[0], f[1])
+				}
+				if f[0] == "!fails_when" {
+					// a search loop that leaves the function with an error when it finds something: the input says whether it does
+					if len(t.resTy) != 1 || t.resTy[0] != "bool" {
+						return "", t.errf(s, "!fails_when needs a function whose only translated result is its error")
+					}
+					pre += "if " + in.Coq + " then (\n" + t.ret([]string{"false"}) + "\n) else (\n"
+					post += "\n)"
+					continue
 				}
 				done := false
 				if isAssign {
@@ -1198,7 +1262,7 @@ func (t *gfTr) seq(stmts []ast.Stmt) (string, error) {
 			}
 		}
 		r2, err := t.seq(rest)
-		return pre + r2, err
+		return pre + r2 + post, err
 	}
 	if t.matchAny(t.cfg.Ignore, text) {
 		return t.seq(rest)
@@ -1215,7 +1279,13 @@ func (t *gfTr) seq(stmts []ast.Stmt) (string, error) {
 	}
 	info := t.pkg.TypesInfo
 	if br, ok := s.(*ast.BranchStmt); ok && br.Tok == token.CONTINUE && br.Label == nil && t.unitKind == "range" {
+		if t.cfg.UnitExits {
+			return t.ret([]string{"true"}), nil
+		}
 		return t.ret(nil), nil
+	}
+	if rs, ok := s.(*ast.ReturnStmt); ok && t.unitKind != "" && t.cfg.UnitExits && len(rs.Results) > 0 {
+		return t.ret([]string{"false"}), nil
 	}
 	switch x := s.(type) {
 	case *ast.BlockStmt:
@@ -1916,6 +1986,9 @@ func genGoFuncs(c *Ctx, group string) (string, string, error) {
 			}
 			stmts, t.unitKind = found, kind
 			t.resTy = nil
+			if f.UnitExits {
+				t.resTy = []string{"bool"}
+			}
 		}
 		if f.RespField != "" {
 			t.resTy = append([]string{"bool"}, t.resTy...)
